@@ -213,7 +213,7 @@ def gen_case(r, tier):
 
 
 def gen(r, tier):
-    n = {"quick": 50, "search": 200, "thorough": 1200}[tier]
+    n = {"quick": 36, "search": 200, "thorough": 1200}[tier]
     return [gen_case(r, tier) for _ in range(n)]
 
 
